@@ -20,12 +20,19 @@ var (
 	idX = refctl.NewIdentity("EEEEEEEE-0000-0000-0000-EEEEEEEEEEEE", "adversary-X")
 )
 
+// stored pairing sets also contain degenerate entities: one without a key, one with a 5-byte key
+var (
+	idKeyless  = refctl.Identity{ID: "keyless-entity"}
+	idShortKey = refctl.Identity{ID: "shortkey-entity", Pub: []byte{1, 2, 3, 4, 5}}
+)
+
 var c03Alphabet = []string{
 	"L:start", "L:finish-genuine", "X:start", "X:finish-signed-by-X-naming-L",
 	"X:start-31", "X:start-33", "X:start-empty", "X:start-zero-point",
 	"X:finish-unknown-name", "X:finish-naming-accessory", "X:finish-zero-key", "X:finish-wrong-key",
 	"X:finish-len0", "X:finish-len15", "X:finish-replay-L", "X:finish-tag-flipped",
 	"L:finish-reordered", "L:finish-stale", "X:state-7", "X:method-1", "X:reopen", "L:reopen",
+	"X:finish-naming-keyless-entity", "X:finish-naming-shortkey-entity",
 }
 
 // connection state in the reference model
@@ -176,6 +183,12 @@ func (r *c03Run) step(ev string) bool {
 	case "finish-naming-accessory":
 		isFinish = true
 		m, err = post(refctl.VerifyM3Sealed(ctxv.EncKey, ctxv.M3Sub(r.b.AccID, idX.Priv)))
+	case "finish-naming-keyless-entity": // a stored entity without a long-term key must not verify anybody
+		isFinish = true
+		m, err = post(refctl.VerifyM3Sealed(ctxv.EncKey, ctxv.M3Sub(idKeyless.ID, idX.Priv)))
+	case "finish-naming-shortkey-entity":
+		isFinish = true
+		m, err = post(refctl.VerifyM3Sealed(ctxv.EncKey, ctxv.M3Sub(idShortKey.ID, idX.Priv)))
 	case "finish-zero-key":
 		isFinish = true
 		m, err = post(refctl.VerifyM3Sealed(make([]byte, 32), ctxv.M3Sub(idL.ID, idX.Priv)))
@@ -293,7 +306,7 @@ func c03Exec(c *fw.Ctx, hist []string) (ok bool) {
 	c.Trace(1)
 	c.Transition(len(hist))
 	world.ResetCapture()
-	b, err := newBed(c, bedOpt{Seed: []refctl.Identity{idL}})
+	b, err := newBed(c, bedOpt{Seed: []refctl.Identity{idL, idKeyless, idShortKey}})
 	if err != nil {
 		c.Infra("bed: " + err.Error())
 		return false
@@ -321,13 +334,19 @@ func c03Run1(c *fw.Ctx) {
 	}
 	n := len(c03Alphabet)
 	if !c.Thorough() {
-		n = 16 // quick: the first 16 symbols (simplest first)
+		n = 16 // quick: the first 16 symbols (simplest first) …
 	}
+	// … plus the two degenerate-entity symbols
+	alpha := append(append([]string{}, c03Alphabet[:n]...), c03Alphabet[len(c03Alphabet)-2:]...)
+	if c.Thorough() {
+		alpha = c03Alphabet
+	}
+	n = len(alpha)
 	sampled := 0
 	exploreTree(c, n, depth, func(h []int) bool {
 		var hist []string
 		for _, s := range h {
-			hist = append(hist, c03Alphabet[s])
+			hist = append(hist, alpha[s])
 		}
 		if len(h) == depth && sampled < 2 {
 			c.Sample(hist)
@@ -341,7 +360,7 @@ func init() {
 	fw.Register(&fw.Check{
 		ID:    "C03",
 		Level: "model_checking",
-		Rule:  "every history of length ≤3 (quick, 16 symbols) / ≤4 (thorough, 22 symbols) over the pair-verify alphabet on an adversary connection X and a legitimate connection L (start valid / 31 / 33 / 0-byte key / all-zero point; finish genuine, signed by X naming L, unknown name, naming the accessory, sealed under zero / wrong key, 0 and 15 byte payloads, tag flipped, L's captured finish replayed, L's signature over reordered or stale material; unknown state; unknown method; reopen) against the real transport over TCP; each node is replayed on a fresh system; after every event the response is compared with the reference model (verified ⇔ genuine finish by L directly after an accepted start, computed by the independent controller), and at the end of every history each connection is probed destructively: an unverified one must answer plaintext, refuse protected reads and not serve ciphertext under its own exchange keys; a verified one must serve encrypted requests. states = tree nodes, distinct_nontrivial = distinct (event → response class) pairs",
+		Rule:  "every history of length ≤3 (quick, 18 symbols) / ≤4 (thorough, 24 symbols) over the pair-verify alphabet on an adversary connection X and a legitimate connection L (start valid / 31 / 33 / 0-byte key / all-zero point; finish genuine, signed by X naming L, unknown name, naming the accessory, sealed under zero / wrong key, 0 and 15 byte payloads, tag flipped, L's captured finish replayed, L's signature over reordered or stale material, naming a stored entity that has no key / a 5-byte key; unknown state; unknown method; reopen) against the real transport over TCP; each node is replayed on a fresh system; after every event the response is compared with the reference model (verified ⇔ genuine finish by L directly after an accepted start, computed by the independent controller), and at the end of every history each connection is probed destructively: an unverified one must answer plaintext, refuse protected reads and not serve ciphertext under its own exchange keys; a verified one must serve encrypted requests. states = tree nodes, distinct_nontrivial = distinct (event → response class) pairs",
 		Run:   c03Run1,
 		Replay: func(c *fw.Ctx, raw json.RawMessage) {
 			var cas c03Case
